@@ -27,6 +27,32 @@ def op(kind):
     return deco
 
 
+class _Foreign:
+    """Displacement handle for a section stream that could not be replaced by a SimStream (e.g. the descriptor
+    type changed): the harness can still move its cursor, which is all the scheduler needs."""
+
+    def __init__(self, stream):
+        self.stream = stream
+        self.clock = None
+        try:
+            self.size = len(stream.getvalue())
+        except Exception:
+            self.size = 0
+
+    @property
+    def pos(self):
+        try:
+            return self.stream.tell()
+        except Exception:
+            return 0
+
+    def displace(self, p):
+        try:
+            self.stream.seek(p)
+        except Exception:
+            pass
+
+
 class Ctx:
     """One opened file shared by all client tasks of a run."""
 
@@ -57,10 +83,14 @@ class Ctx:
             st = desc.stream
             if isinstance(st, SimStream):
                 continue
-            data = st.getvalue()
-            s = SimStream(data, prefix + nm, self.clock)
-            setattr(d, nm, desc._replace(stream=s))
-            self.streams[prefix + nm] = s
+            try:
+                data = st.getvalue()
+                s = SimStream(data, prefix + nm, self.clock)
+                setattr(d, nm, desc._replace(stream=s))
+                self.streams[prefix + nm] = s
+            except Exception:
+                # not the documented namedtuple-over-BytesIO shape any more: leave the library's own stream in place
+                self.streams[prefix + nm] = _Foreign(st)
 
     def fresh_dw(self, tag):
         d = self.elf.get_dwarf_info(follow_links=self.follow)
